@@ -460,9 +460,15 @@ func worker(w *runner.W) {
 			}
 		}
 	}
+	sizeWorker(w, &caseNo)
 }
 
 func replay(w *runner.W, raw json.RawMessage) {
+	var sc sCase
+	if err := json.Unmarshal(raw, &sc); err == nil && sc.Family != "" {
+		replaySize(w, sc)
+		return
+	}
 	var cs Case
 	if err := json.Unmarshal(raw, &cs); err != nil {
 		panic(err)
@@ -488,13 +494,15 @@ func main() {
 			for _, c := range configs {
 				cn = append(cn, fmt.Sprintf("%s %q", c.Name, c.Pattern))
 			}
-			return fmt.Sprintf("matches of the line v1|v2 by %d matcher configurations (%s) x keys {.} {#} {.#} evaluated by the real extractor (one worker) x every pair (v1, v2) over V%d in which at least one value is in V%d or both are in V%d, where Vn = all strings of up to n symbols over %q plus the special values %q (|V1|=%d, |V2|=%d, |V3|=%d). Every match is evaluated at least 64 times (2 named groups: 64 times with the matcher's name table, 96 times each with name tables holding the same names inserted in ascending and in descending order) and all texts must be identical; the first text is validated and decoded with encoding/json and every member compared with the captured text. One evaluation = one (configuration, key, v1, v2); non-trivial = the text has at least one member",
-				len(configs), strings.Join(cn, ", "), b.big, b.small, b.square, alphabet, specials, len(values(1)), len(values(2)), len(values(3)))
+			return fmt.Sprintf("matches of the line v1|v2 by %d matcher configurations (%s) x keys {.} {#} {.#} evaluated by the real extractor (one worker) x every pair (v1, v2) over V%d in which at least one value is in V%d or both are in V%d, where Vn = all strings of up to n symbols over %q plus the special values %q (|V1|=%d, |V2|=%d, |V3|=%d). Every match is evaluated at least 64 times (2 named groups: 64 times with the matcher's name table, 96 times each with name tables holding the same names inserted in ascending and in descending order) and all texts must be identical; the first text is validated and decoded with encoding/json and every member compared with the captured text. One evaluation = one (configuration, key, v1, v2) or one line of a size/history unit; non-trivial = the text has at least one member.",
+				len(configs), strings.Join(cn, ", "), b.big, b.small, b.square, alphabet, specials, len(values(1)), len(values(2)), len(values(3))) + sizeRule(tier != "thorough")
 		},
 		Assumptions: func(string) []string {
 			return []string{
 				"encoding/json is the judge of validity (it accepts raw bytes >= 0x80 inside strings, including invalid UTF-8, which it decodes to U+FFFD); a U+FFFD per invalid byte or per run of invalid bytes is accepted as the decoding of invalid UTF-8",
-				"a member may be a JSON number only if the capture has the shape [+-]digits[.digits][e[+-]digits] and exactly the same decimal value; a boolean only if the capture is true/false in any ASCII letter case",
+				"a member may be a JSON number only if the capture has the shape [+-]digits[.digits][e[+-]digits] and exactly the same decimal value (digit strings and math/big exponents, no rounding at any size); a boolean only if the capture is true/false in any ASCII letter case",
+				"a member name must decode to the group name; a group name that is not valid UTF-8 (dissect names may hold any byte but '}') may decode with U+FFFD like a value",
+				"size and history families: the captures of a line are known by construction (the patterns split on a delimiter that the values do not contain); a fresh extractor (extractor.New with one worker) is a fresh compiled key, a fresh matcher instance and a fresh expression context",
 				"an empty capture may be left out of the object or be an empty string; every non-empty capture the key asks for must be a member ({.}: named groups, {#}: numbered groups incl. 0, {.#}: both) and no other member may appear",
 				"Go's map iteration order cannot be chosen from outside; a difference between evaluations is looked for with 64..256 evaluations per match and tables of different insertion history. With 2 names in one bucket each single iteration starts at the second entry with probability 1/8, so an order-dependent implementation escapes one case with probability < 1e-14 and a whole run (thousands of such cases) never in practice; an implementation that does not depend on map order can never be reported",
 			}
